@@ -4,6 +4,8 @@ import (
 	"bytes"
 	"context"
 	"crypto"
+	"os"
+	"path/filepath"
 	"crypto/sha256"
 	"crypto/x509"
 	"fmt"
@@ -230,7 +232,7 @@ func refSCT(logID [32]byte, ts int64, ext []byte, sig []byte) []byte {
 
 func TestC12Client(t *testing.T) {
 	r := NewRun(t, "C12", "client")
-	r.Rule = "ground-truth logs rendered by the real sequencer at sizes {1,2,255,256,257,511,513,700} served by an adversarial HTTP server (and a gzip+file:// directory) with one tampering per case (hash tile: flip/truncate/swap/other log/delete; data tile: payload flip, truncation, compressed-byte flip, swap, other log, delete, reorder, duplicate entry, uncovered-field edit, timestamp/index edit, edit with recomputed level-0 tile) and read through Entries/AllEntries from start in {0,1,255,256,N-1,N}, Entry(i), CheckInclusion(valid and altered SCTs), Checkpoint(variants); oracle: every yielded/returned entry equals the ground truth in all Merkle-covered fields; distinct = (size, tamper kind, call, outcome)"
+	r.Rule = "ground-truth logs rendered by the real sequencer at sizes {1,2,255,256,257,511,513,700} served by an adversarial HTTP server (every fourth case through a gzip+file:// directory instead) with one tampering per case (hash tile: flip/truncate/swap/other log/delete; data tile: payload flip, truncation, compressed-byte flip, swap, other log, delete, reorder, duplicate entry, uncovered-field edit, timestamp/index edit, edit with recomputed level-0 tile) and read through Entries/AllEntries from start in {0,1,255,256,N-1,N}, Entry(i), CheckInclusion(valid and altered SCTs), Checkpoint(variants); oracle: every yielded/returned entry equals the ground truth in all Merkle-covered fields; distinct = (size, tamper kind, call, outcome)"
 	rng := NewRng(r.Seed, "c12")
 	shard, shards := shardInfo()
 	sizes := []int{1, 2, 255, 256, 257, 511, 513, 700}
@@ -284,6 +286,23 @@ func TestC12Client(t *testing.T) {
 				}
 				srv.cur.Store(&m)
 				r.Eval(1)
+				client := cl
+				mode := "http"
+				if rep%4 == 3 {
+					// the same objects through the gzip+file:// reader
+					fdir, _ := os.MkdirTemp(scratchRoot(), "c12fs-")
+					for k, v := range m {
+						p := filepath.Join(fdir, filepath.FromSlash(k))
+						os.MkdirAll(filepath.Dir(p), 0o755)
+						os.WriteFile(p, v, 0o644)
+					}
+					fc, err := sunlight.NewClient(&sunlight.ClientConfig{MonitoringPrefix: "gzip+file://" + fdir, PublicKey: l.env.Key.Public()})
+					if err == nil {
+						client, mode = fc, "file"
+					}
+					defer os.RemoveAll(fdir)
+				}
+				cl := client
 				ctx, cancel := context.WithTimeout(context.Background(), 2*time.Second)
 				starts := []int64{0, 1, 255, 256, int64(size) - 1, int64(size)}
 				start := starts[rng.Intn(len(starts))]
@@ -319,7 +338,8 @@ func TestC12Client(t *testing.T) {
 						r.Violate("pristine-log-incomplete", map[string]any{"size": size, "call": call, "start": start}, "AllEntries from %d stopped at %d of %d", start, next, size)
 					}
 				}
-				r.DistinctKey(fmt.Sprintf("%d/%s/%s/err=%v/yielded>0=%v", size, kind, call, errd, n > 0))
+				r.DistinctKey(fmt.Sprintf("%d/%s/%s/%s/err=%v/yielded>0=%v", size, kind, mode, call, errd, n > 0))
+				r.Count("cases_"+mode, 1)
 				// Entry(i)
 				for k := 0; k < 3; k++ {
 					idx := int64(rng.Intn(size))
